@@ -79,6 +79,10 @@ func hintFor(mode string, size int, bs uint) int64 {
 		return int64(size)*3 + 12345
 	case "huge":
 		return 1 << 50
+	case "negative":
+		return -1
+	case "negbig":
+		return -(1 << 40)
 	}
 	return 0
 }
@@ -175,7 +179,15 @@ func runRtCase(c *rtCase) (res rtResult) {
 		if cfg.Headerless {
 			hc = &cfg
 		}
-		r, err := kz.NewReader(src, c.DecJobs, hc)
+		var r *kio.Reader
+		var err error
+		if cfg.Headerless && c.Seed%2 == 0 {
+			// the parameter-map API without an explicit stream version (the documented default is the current one)
+			r, err = kio.NewReaderWithCtx(src, map[string]any{"jobs": c.DecJobs, "headerless": true, "transform": cfg.Transform, "entropy": cfg.Entropy,
+				"blockSize": cfg.BlockSize, "checksum": cfg.Checksum, "outputSize": int64(0)})
+		} else {
+			r, err = kz.NewReader(src, c.DecJobs, hc)
+		}
 		if err != nil {
 			rr.Err = err
 			return
@@ -297,7 +309,7 @@ func c01(run *core.Run, replay string) {
 	jobsL := []uint{1, 2, 3, 4, 8, 1, 16, 1, 7}
 	decJ := []uint{1, 2, 3, 4, 8, 64}
 	cks := []uint{0, 32, 64}
-	hints := []string{"absent", "exact", "absent", "larger", "huge", "exact", "absent", "smaller1", "tiny"}
+	hints := []string{"absent", "exact", "absent", "larger", "huge", "exact", "absent", "smaller1", "tiny", "negative", "negbig"}
 	wparts := [][]int{nil, {1000}, {1, 7, 4093, 13}, {4096}, {65536, 3}, nil}
 	rparts := [][]int{nil, {1}, {4095, 4097}, {100000}, {7, 0, 300}, nil}
 	sizeFor := func(i int, bs uint) int {
